@@ -65,6 +65,10 @@ func (nd *NamespaceData) ReadFrom(reader io.Reader) (int64, error) {
 		nn, err := rnd.ReadFrom(reader)
 		n += nn
 		if errors.Is(err, io.EOF) {
+			if nn > 0 {
+				// the stream ended inside a message, right after its length prefix
+				return n, io.ErrUnexpectedEOF
+			}
 			break
 		}
 		if err != nil {
